@@ -46,6 +46,7 @@ def evaluate(cdir, sid, round_name):
             cmeta = {}
     rec["summary"] = cmeta.get("summary", "")
     rec["needs"] = cmeta.get("needs", "")
+    rec["note"] = cmeta.get("note", "")
     wt = tempfile.mkdtemp(prefix="seedwt.")
     os.rmdir(wt)
     rc, out = sh(["git", "-C", "/repo", "worktree", "add", "-q", "--detach", wt, "HEAD"])
@@ -133,6 +134,8 @@ def main():
                 os.makedirs(out, exist_ok=True)
                 shutil.copy(os.path.join(w[0], "patch.diff"), os.path.join(out, "patch.diff"))
                 shutil.copy(os.path.join(w[0], "demo.py"), os.path.join(out, "demo.py"))
+                if os.path.exists(os.path.join(w[0], "patch.orig.diff")):
+                    shutil.copy(os.path.join(w[0], "patch.orig.diff"), os.path.join(out, "patch.orig.diff"))
                 meta = {"id": rec["id"], "breaks": rec["property"], "what": rec["summary"],
                         "needs_to_manifest": rec["needs"], "origin": "sub-agent given only the property text and a scratch "
                         "worktree of /repo ({})".format(rec["round"]),
@@ -143,6 +146,7 @@ def main():
                             "PYTHONPATH=/repo python demo.py -> exit {} ({})".format(rec["demo_on_clean"]["exit"], rec["demo_on_clean"]["last"][:160]),
                             rec["check"]["command"] + " -> exit {} with {} VIOLATION line(s)".format(rec["check"]["exit"], rec["check"]["violations"]),
                             "worktree removed"],
+                        "note": rec.get("note", ""),
                         "caught_by_own_property_check": rec["caught"],
                         "first_violation": rec["check"]["first_clause"]}
                 json.dump(meta, open(os.path.join(out, "meta.json"), "w"), indent=1)
